@@ -78,6 +78,70 @@ class C02(Prop):
                   "and decided by the kernel. Tie: real AllocAndPack/Unpack vs model on the same values, full bytes and values.")
 
 
+class C06(Prop):
+    id = "C06"
+    lean_module = "Props.C06"
+    harness = "dpt"
+    streams = [("C06", "gendrv", 1.0)]
+    budgets = {"quick": 30000, "thorough": 1000000}
+    thorough_seeds = 1
+    rule = ("unpack -> pack -> unpack through the real types (3 operations per accepted payload): exhaustive over all 256 "
+            "one-byte and all 2^8 (x first-byte variants) two-byte payloads of every type; three-byte types: all 65,536 value "
+            "encodings of 9.001, 9.002, 7.001, 8.001, 8.003, 8.004 in the quick tier and a stride-61 sample of the other 35 "
+            "types (all 65,536 of every type in thorough); five-byte types: every sign x exponent class of float32 with 5 "
+            "mantissas, corner and random patterns; 4/7/15-byte and variable-length types structured (reserved bits, garbage "
+            "behind terminators, all field ranges). Oracle: decoded value identical after re-encoding; byte identity for the "
+            "exact formats. distinct = distinct (type, payload) pairs.")
+    technique = "Lean 4 proof (structural stability/exactness theorems per codec shape; kernel sweeps for the 8-bit scaled types) over a shape table regenerated from the source + exhaustive differential correspondence with an integer-only IEEE-754 model"
+    level_text = ("Theorems (all payloads, no sampling): re-encoding a decoded value yields a payload decoding to the same value, "
+                  "and byte-identical up to ignored bits, for the bool, integer, IEEE-754, RGB, scene, time and variable-string "
+                  "shapes (146 of 174 registered types, counted by a theorem over the regenerated shape table) and for 5.001 / 5.003 "
+                  "(all 256 octets through the float model in the kernel). _partial: the 20 sixteen-bit float types, 8.003/8.004/8.010, "
+                  "date, the 14-character strings and two colour structures are decided by the exhaustive differential run + oracle.")
+    partial = "Lean stability theorems for the 9.xxx / 8.00x / date / 16.xxx / colour shapes are not finished; those shapes rest on the exhaustive differential run"
+
+
+class C07(Prop):
+    id = "C07"
+    lean_module = "Props.C07"
+    harness = "dpt"
+    streams = [("C07", "gendrv", 1.0)]
+    budgets = {"quick": 30000, "thorough": 1000000}
+    thorough_seeds = 1
+    rule = ("pack -> unpack through the real types: float32 bit patterns log-uniform over 1e-3..1e9 in both signs, uniform in "
+            "each type's decoder-defined range, every bound and exponent-switch point of the 16-bit float with +-1/+-2 ulp "
+            "neighbours, +-0, subnormals, +-Inf, NaN, for 9 float-valued types in full and a random quarter of the rest; all "
+            "values of the 8-bit and (two types fully, others stride 7) 16-bit integer types; field combinations of time/date "
+            "incl. invalid ones; strings of 0..40 runes over ASCII / Latin-1 / BMP / astral. Oracle: accuracy within one "
+            "quantisation step, monotonicity over the sorted sample, saturation, fixed length + zero lead byte, decodability.")
+    technique = "Lean 4 proof (encoding shape, saturation for every float32 input, self-decodability of integer/structure/string shapes) + differential correspondence and direct oracle for accuracy/monotonicity"
+    level_text = ("Theorems: every encoding has its type's fixed length with a zero lead byte (6-bit value for one byte); values at or "
+                  "beyond a bound encode exactly like the bound for every float32 input of every float-valued shape (no wrap, no sign "
+                  "change); every time/date/string/colour value incl. invalid field combinations encodes to a payload its decoder "
+                  "accepts. _partial: accuracy within one step and monotonicity for all finite inputs are decided by the differential "
+                  "run against the integer-only IEEE model and by the oracle on ~10^5 float patterns per run.")
+    partial = "accuracy/monotonicity for all finite float32 inputs not yet a Lean theorem (needs rounding-function lemmas)"
+
+
+class C08(Prop):
+    id = "C08"
+    lean_module = "Props.C08"
+    harness = "dpt"
+    streams = [("C08", "gendrv", 1.0)]
+    budgets = {"quick": 30000, "thorough": 1000000}
+    thorough_seeds = 1
+    rule = ("for each of the 174 registered types: every byte string of length 0..2 over a 13-letter boundary alphabet, samples "
+            "of every length 3..20, every correct-length payload of the 1/2/3-byte types (oracle on all 65,536; a stride on the "
+            "correspondence stream), all 2^21 day/month/year and weekday/hour/minute/second field combinations incl. reserved "
+            "bits, all 256 reserved-bit patterns of the two colour structures; Unpack, String() and Unit() under recover. "
+            "distinct = distinct (type, payload) pairs on the correspondence stream.")
+    technique = "Lean 4 proof (totality of every shape's decoder at Go-slice level, length rejection, range theorems; documented bounds pinned against the regenerated shape table) + differential correspondence"
+    level_text = ("Theorems for every byte string: no shape's decoder panics; a payload of the wrong length is rejected; decoded "
+                  "values are in range (9.xxx within the type's bounds which the regenerated table pins to the documented ones, "
+                  "5.001 in 0..100, 5.003 in 0..360, hour<24, min/sec<60, calendar dates 1990-2089 with Gregorian leap rule, scene<64, "
+                  "reserved bits of the colour structures). Tie: shape table regenerated from source; real Unpack vs model.")
+
+
 class C11(Prop):
     id = "C11"
     lean_module = "Props.C11"
@@ -153,7 +217,7 @@ class C15(Prop):
     partial = "prefill-independence / no-overrun are shown by the differential run, not yet by a buffer-level Lean theorem"
 
 
-ALL = {c.id: c for c in [C01, C02, C11, C15, C18, C19]}
+ALL = {c.id: c for c in [C01, C02, C06, C07, C08, C11, C15, C18, C19]}
 NOT_CLAIMED = {}
 
 
